@@ -159,7 +159,7 @@ def draw_call(rng, pool, force_alg=None):
         which = C.ALL_PART.index(rng.choice(SEARCHERS))      # the stateful-looking algorithms get 40% of the calls
     if force_alg is not None:
         vals = list(rng.choice(sorted(pool, key=len)[-3:]))          # probe calls use the longer vectors of the pool: the searches have something to do
-    case = {"values": vals, "pres": rng.choice(C.PRESENTATIONS + ("array_f",)), "pres_seed": rng.choice([1, 2]), "ot": rng.choice(OTS)}
+    case = {"values": vals, "pres": rng.choice(C.PRESENTATIONS + ("array_f", "array_u")), "pres_seed": rng.choice([1, 2]), "ot": rng.choice(OTS)}
     if which < 11:
         alg = C.ALL_PART[which]
         k = 2 if alg == "cbldm" else (rng.choice([1, 2, 3, 3, 4, 4, 6, 9]) if force_alg is None else rng.choice([3, 4, 5]))
